@@ -21,6 +21,11 @@ type WatchdogConfig struct {
 	WarnRatio    float64
 	WarnSegments int64
 	RaftPointers func() map[uint64]manifest.RaftLogPointer
+	// FlushedSegment reports the highest WAL segment whose memtable data has
+	// been flushed to tables (the manifest's WAL checkpoint). Segments above it
+	// still back unflushed memtables and are never removed automatically. Nil
+	// means the WAL carries no memtable data.
+	FlushedSegment func() uint32
 }
 
 // WatchdogSnapshot captures WAL watchdog state for reporting.
@@ -45,6 +50,7 @@ type Watchdog struct {
 	warnSegments int64
 	autoEnabled  bool
 	raftPointers func() map[uint64]manifest.RaftLogPointer
+	flushedSeg   func() uint32
 	closer       *utils.Closer
 
 	autoRuns        atomic.Uint64
@@ -83,6 +89,7 @@ func NewWatchdog(cfg WatchdogConfig) *Watchdog {
 		warnSegments: cfg.WarnSegments,
 		autoEnabled:  cfg.MinRemovable > 0 && cfg.MaxBatch > 0,
 		raftPointers: cfg.RaftPointers,
+		flushedSeg:   cfg.FlushedSegment,
 		closer:       utils.NewCloser(),
 	}
 	w.warnReason.Store("")
@@ -186,6 +193,22 @@ func (w *Watchdog) observe() {
 	}
 
 	batch := analysis.RemovableSegments
+	if w.flushedSeg != nil {
+		// A segment that raft no longer needs may still hold memtable records
+		// that have not been flushed: removing it would lose acknowledged
+		// writes on the next crash.
+		flushed := w.flushedSeg()
+		kept := batch[:0:0]
+		for _, id := range batch {
+			if id <= flushed {
+				kept = append(kept, id)
+			}
+		}
+		batch = kept
+		if len(batch) < w.minRemovable {
+			return
+		}
+	}
 	if len(batch) > w.maxBatch {
 		batch = batch[:w.maxBatch]
 	}
